@@ -103,6 +103,38 @@ theorem castem_fixed_point {ε : K} {sq : K → K} (st : Castem K) (u1 r : Vec K
   · rfl
   · rfl
 
+/-- Cast3M: the accelerated iterate is an affine combination (coefficients summing to one) of the last
+three iterates: stationary iterates are left unchanged whatever the residuals. -/
+theorem castem_stationary_iterates {C : Consts K} (hC : C.one = 1) (st : Castem K) (u1 r : Vec K) (seps : K)
+    (iter : Nat) (h1 : st.u1 = u1) (h2 : st.u2 = u1) : (Castem.exec C st u1 r seps iter).2 = u1 := by
+  unfold Castem.exec
+  dsimp only
+  rw [h1, h2]
+  split_ifs
+  · apply zipWith_zip_self
+    intro x
+    rw [hC]
+    ring
+  · apply zipWith_self
+    intro x
+    rw [hC]
+    ring
+  · rfl
+  · rfl
+
+/-- secant: stationary iterates are left unchanged whatever the residuals. -/
+theorem secant_stationary_iterates {C : Consts K} (st : Secant K) (u1 r : Vec K) (seps : K) (iter : Nat)
+    (h1 : st.u1 = u1) : (Secant.exec C st u1 r seps iter).2 = u1 := by
+  unfold Secant.exec
+  dsimp only
+  rw [h1]
+  split_ifs
+  · apply zipWith_zip_self
+    intro x
+    ring
+  · rfl
+  · rfl
+
 /-! ## Nothing happens before the trigger -/
 
 theorem castem_below_trigger {C : Consts K} (st : Castem K) (u1 r : Vec K) (seps : K) (iter : Nat)
